@@ -22,6 +22,18 @@ pub fn run_job(job: &Job) -> RunResult {
         "lsp-sim" => crate::lsp::run(job),
         "api-sim" => crate::apisim::run(job),
         "cache-sim" => crate::cachesim::run(job),
+        // self-test of the worker's watchdog and crash reporting (`hsim replay` of a hand-written file)
+        "debug" => {
+            if job.params.get("hang").and_then(|v| v.as_bool()).unwrap_or(false) {
+                loop {
+                    std::hint::spin_loop();
+                }
+            }
+            if job.params.get("abort").and_then(|v| v.as_bool()).unwrap_or(false) {
+                std::process::abort();
+            }
+            RunResult::new(job)
+        }
         other => {
             let mut r = RunResult::new(job);
             r.harness(format!("unknown engine {other}"));
